@@ -21,6 +21,7 @@ PROBES = {
     "Argument::len": "probe_argument_len",
     "Argument::valid": "probe_argument_valid",
     "LevelDistribution::merge": "probe_level_merge",
+    "dlt_message_intern": "probe_dlt_message_intern",
     "dlt_consume_msg": "probe_consume_msg",
     "skip_storage_header": "probe_skip_storage_header",
 }
